@@ -130,7 +130,9 @@ impl Ntv2Grid {
             // Find the first base grid which contain the point +- the margin, if at all.
             for base_grid_id in self.lookup_table.get(&current_grid_id).unwrap() {
                 if let Some(base_grid) = self.subgrids.get(base_grid_id) {
-                    if base_grid.contains(coord, margin) {
+                    // (with the same little grace as above: the limits of the grid
+                    // are not exactly representable)
+                    if base_grid.contains(coord, margin.max(1e-6)) {
                         return Some((base_grid_id.clone(), base_grid));
                     }
                 }
